@@ -441,6 +441,10 @@ fn run(ctx: &Ctx, report: &mut Report) {
                     report.transitions += calls;
                     report.count("primitive_calls", calls);
                                         report.outcome(format!("p{digest}"));
+                    if report.samples.len() < 2 && st.canon.len() >= 2 {
+                        let canon: Vec<String> = st.canon.iter().map(|s| s.to_string()).collect();
+                        report.samples.push(json!({"primitives_on_state": canon, "backend": kind, "calls": calls, "range_digest": digest}));
+                    }
                     for (o, w, d) in bad {
                         report.violation(o, w, case.clone(), d, ordinal);
                     }
@@ -473,7 +477,7 @@ fn one_triple(report: &mut Report, a: &State, b: &State, cfg: Cfg, ordinal: u64)
             for (o, w, d) in bad {
                 report.violation(o, w, case(), d, ordinal);
             }
-            if nt && msgs >= 4 {
+            if nt && (msgs >= 4 || report.samples.is_empty()) {
                 report.sample(|| {
                     json!({"a": a.canon.iter().map(|s| s.to_string()).collect::<Vec<_>>(),
                            "b": b.canon.iter().map(|s| s.to_string()).collect::<Vec<_>>(),
